@@ -38,7 +38,7 @@ META = dict(
                  "same oracles but may return ERROR"],
     need=["energy_consistency_checks", "controller_decisions", "converged_claims_verified",
           "inversion_enabler_solutions", "nstep_termination_checks", "cg_runs"],
-    quick=dict(cases=1500, workers=6, budget_s=60),
+    quick=dict(cases=1200, workers=6, budget_s=75),
     thorough=dict(cases=40000, workers=16, budget_s=600),
     design_ref="DESIGN.md §5 C14",
     level_text=("generated HPD systems / controller configurations, every controller event of the real "
@@ -226,7 +226,8 @@ class RunJudge:
             sh = self.shadow.feed(ev["meth"], q)
             self.last_shadow = sh
             if sh is None:
-                ck.hit("controller_ties")
+                if self.judged_all:
+                    ck.hit("controller_tie_runs")
                 self.judged_all = False
             else:
                 ck.hit("controller_decisions")
@@ -255,7 +256,13 @@ class RunJudge:
         return nev
 
     def monotone(self):
+        """energies must not increase from one controller event to the next — judged only while the
+        dense residual is well above the attainable accuracy (>= 1e-8 of |A| max|x| + |b|): once CG
+        has converged numerically its further steps are driven by rounding noise"""
+        S = self.normA * self.xmax + self.normb + 1e-300
         for k in range(1, len(self.Ed)):
+            if min(self.res[k - 1], self.res[k]) < 1e-8 * S:
+                break
             (e0, s0), (e1, s1) = self.Ed[k - 1], self.Ed[k]
             self.ck.hit("monotone_checks")
             if e1 > e0 + 1e-10 * max(s0, s1):
@@ -302,6 +309,19 @@ def judge_return(J, events, energy, status, hpd, ic):
         J.viol(f"cg-converged-without-controller:{J.site}",
                "ConjugateGradient returned CONVERGED although the controller said CONTINUE and the "
                "dense residual is not zero", residual=res, scale=S)
+
+
+def controller_crash(ck, ic, exc, desc, spec, path, n):
+    """a controller raised ZeroDivisionError (energy value exactly 0, e.g. zero start position)"""
+    import traceback
+    tb = traceback.extract_tb(exc.__traceback__)
+    inside = any("iteration_controllers" in fr.filename for fr in tb)
+    where = type(ic).__name__ if inside else "other"
+    ck.hit("controller_crashes")
+    ck.violation(f"controller-crash:ZeroDivisionError:{where}",
+                 f"{type(ic).__name__} raised ZeroDivisionError while judging an energy whose value is "
+                 "exactly 0 (zero start position)", start=desc.get("start"), path=path)
+    ck.note(desc, nontrivial=False, klass=f"{path}:{spec['kind']}")
 
 
 # ----------------------------------------------------------------------- case ---
@@ -357,6 +377,8 @@ def case(ck, i):
     # ------------------------------------------------------------ start point
     if path in ("ie_inv", "ie_adj"):
         stkind = "zero"
+    elif path == "nstep":
+        stkind = str(rng.choice(["zero", "random"]))
     else:
         stkind = str(rng.choice(["zero", "zero", "random", "random", "near", "exact"]))
     if stkind == "zero":
@@ -399,12 +421,18 @@ def case(ck, i):
         P, _ = gen_precond(ift, ck, rng, dom, A if hpd else A_hpd, cplx, pk)
         x0f = cs.mkfield(dom, x0)
         rec.begin()
+        crashed = None
         try:
             energy0 = ift.QuadraticEnergy(x0f, op, bf)
             out_energy, status = ift.ConjugateGradient(ic, nreset=nreset)(energy0, preconditioner=P)
+        except ZeroDivisionError as e:
+            crashed = e
         finally:
             events = [e for e in rec.end() if e["t"] == "ctrl" and e["ctrl"] is ic]
         nev = J.run(events)
+        if crashed is not None:
+            controller_crash(ck, ic, crashed, desc, spec, path, n)
+            return
         judge_return(J, events, out_energy, status, hpd, ic)
         if hpd:
             J.monotone()
@@ -444,12 +472,18 @@ def case(ck, i):
             ck.violation(f"inversion-enabler:{nm}:wrong-result", f"InversionEnabler.{nm} differs from A v")
     del log[:]
     rec.begin()
+    crashed = None
     try:
         meth = "inverse_times" if path == "ie_inv" else "adjoint_inverse_times"
         xf = getattr(ie, meth)(bf)
+    except ZeroDivisionError as e:
+        crashed = e
     finally:
         events = [e for e in rec.end() if e["t"] == "ctrl" and e["ctrl"] is ic]
     nev = J.run(events)
+    if crashed is not None:
+        controller_crash(ck, ic, crashed, desc, spec, path, n)
+        return
     J.monotone()
     iters = max(0, nev - 1)
     desc["iters"] = iters
@@ -464,8 +498,14 @@ def case(ck, i):
     if events:
         xl = J.vec(events[-1]["energy"].position)
         if not np.array_equal(x, xl):
-            ck.violation(f"inversion-enabler:{meth}:result-not-last-iterate",
-                         "the returned field is not the position of the last energy the controller saw")
+            # only legitimate if CG left through its own exact-zero-residual exit
+            Aeff = A if path == "ie_inv" else A.conj().T
+            S = J.normA * max(J.xmax, cs.nrm(x)) + J.normb
+            ck.hit("cg_own_exit")
+            if events[-1]["status"] != CONT or cs.nrm(Aeff @ x - b) > 1e-9 * S:
+                ck.violation(f"inversion-enabler:{meth}:result-not-last-iterate",
+                             "the returned field is neither the position of the last energy the "
+                             "controller saw nor an exact solution")
         # the solution quality the controller certified: if the (shadow-verified) last decision was
         # criterion-based convergence of a gradient-norm controller, re-check the residual of the
         # *returned* field against that tolerance directly
